@@ -284,6 +284,64 @@ theorem C15_shared_object_memo_interferes :
       outOf (run .Global sched (init [] progs)) 1 = solo1) := by
   decide
 
+/-! ## a `set … restore` window on a process-wide flag (a service-wide setting switched off
+around one call in a `try/finally`, e.g. "conversion disabled" on a cached service object) -/
+
+/-- the flag as events on one cell: idle = `none` ("enabled").  A text rendered with the setting
+OFF: switch the flag off (`set`), render under the flag (`lookup`), restore the idle value
+(`clear`, the `finally`); a text rendered with the default setting only reads the flag.  What a
+read obtains stands for the rendered text: `c` under the idle flag (the converted text); under a
+switched-off flag the position of `c` in the switching text's `[c']` — `1` for the text the flag
+was switched off for, `0` for any other thread's text (the literal text). -/
+def flagOffProg (texts : List Color) : List Ev :=
+  texts.flatMap fun c => [.setCtx [c], .lookup c, .clearCtx]
+
+def flagOnProg (texts : List Color) : List Ev := texts.map .lookup
+
+/-- document 0: two texts with the setting off; document 1: two texts with the default setting -/
+def flagProgs : List (List Ev) := [flagOffProg [7, 8], flagOnProg [5, 6]]
+
+/-- **Sequentially the window is exact** (why the single-threaded suite passes): the flag is
+always restored, so every document returns its solo output (instance of `C15_global_sequential`). -/
+theorem C15_flag_window_sequential (r₀ r₀' : Registry) (i : Nat) (p : List Ev)
+    (hp : flagProgs[i]? = some p) :
+    outOf (run .Global (seqSchedule flagProgs) (init r₀ flagProgs)) i = solo .Global r₀' p :=
+  C15_global_sequential r₀ r₀' flagProgs (by decide) (by decide) i p hp
+
+/-- **One preemption inside the window suffices, and only there.**  Document 0 is stopped after
+switching the flag off (a) or after rendering, before the restore (b), document 1 is encoded from
+start to finish: every text of document 1 stays literal (`0` instead of `5`, `6`), document 0 is
+unharmed — one-sided damage; (c) stopped between two windows or before / after all of them (every
+other single preemption of document 0) both return their solo outputs; (d) the roles exchanged
+(document 1 stopped anywhere, document 0 runs whole) is harmless too. -/
+theorem C15_flag_window_interferes :
+    let solo0 := solo .Global [] (flagOffProg [7, 8])
+    let solo1 := solo .Global [] (flagOnProg [5, 6])
+    solo0 = [.idx 1, .idx 1] ∧ solo1 = [.idx 5, .idx 6] ∧
+    (∀ k ∈ [1, 2, 4, 5],
+      let σ := run .Global (List.replicate k 0 ++ [1, 1] ++ List.replicate (6 - k) 0) (init [] flagProgs)
+      outOf σ 1 = [.idx 0, .idx 0] ∧ outOf σ 0 = solo0) ∧
+    (∀ k ∈ [0, 3, 6],
+      let σ := run .Global (List.replicate k 0 ++ [1, 1] ++ List.replicate (6 - k) 0) (init [] flagProgs)
+      outOf σ 1 = solo1 ∧ outOf σ 0 = solo0) ∧
+    (∀ k ∈ [0, 1, 2],
+      let σ := run .Global (List.replicate k 1 ++ List.replicate 6 0 ++ List.replicate (2 - k) 1) (init [] flagProgs)
+      outOf σ 1 = solo1 ∧ outOf σ 0 = solo0) := by
+  decide
+
+/-- **A per-call / thread-private flag is exact under every schedule** (the setting passed as an
+argument, or kept in a per-thread cell): instance of `C15_local_complete`. -/
+theorem C15_private_flag_exact (r₀ r₀' : Registry) (sched : List Nat) (i : Nat) (p : List Ev)
+    (hp : flagProgs[i]? = some p) (hdone : p.length ≤ sched.count i) :
+    outOf (run .Local sched (init r₀ flagProgs)) i = solo .Local r₀' p := by
+  have hfree : freeGets p = [] := by
+    match i, hp with
+    | 0, hp => cases hp; decide
+    | 1, hp => cases hp; decide
+    | (n + 2), hp => simp [flagProgs] at hp
+  exact C15_local_complete id r₀ r₀' flagProgs sched i p hp (by decide) hfree hdone
+
+
 /-- the same on the witness programs, by evaluation -/
 example :
     let σ := run .Global (List.replicate 7 0 ++ List.replicate 7 1) (init [] witnessProgs)
